@@ -37,6 +37,13 @@ impl Intern {
             self.vals.get(i - 1)
         }
     }
+    /// same-tapes experiment: values are filed under the SPECIFICATION's ids (no de-duplication)
+    pub fn set(&mut self, id: usize, b: &[u8]) {
+        while self.vals.len() < id {
+            self.vals.push(Vec::new());
+        }
+        self.vals[id - 1] = b.to_vec();
+    }
     pub fn lookup(&self, b: &[u8]) -> Option<usize> {
         self.map.get(b).copied()
     }
@@ -93,6 +100,8 @@ pub struct World<'a> {
     /// the other, instead of one tape per call
     pub shared_rng: Option<TapeRng>,
     pub shared_rng_mode: bool,
+    /// every call is given a generator that starts at the SAME position of the SAME tape
+    pub same_tapes: bool,
     /// messages travel through serde (decode native -> serde encode -> serde decode -> native)
     pub msg_codec: Option<Codec>,
     pub transport_problems: Vec<String>,
@@ -152,6 +161,7 @@ impl<'a> World<'a> {
             atoms_used: HashMap::new(),
             shared_rng: None,
             shared_rng_mode: false,
+            same_tapes: false,
             msg_codec: None,
             transport_problems: Vec::new(),
         }
@@ -200,6 +210,9 @@ impl<'a> World<'a> {
     }
 
     fn rng(&mut self, tape: i64) -> TapeRng {
+        if self.same_tapes {
+            return TapeRng::new(self.run_seed, 424_242);
+        }
         if let Some(mut sh) = self.shared_rng.take() {
             sh.draws.clear();
             return sh;
